@@ -1165,6 +1165,7 @@ def main():
                                  "every proper prefix of the announcement tag as a title x 3 classes x 3 authors",
                                  "body sizes through bbs.CreateArticle -> bbs.GetArticle: 0, 1, MAX_EDIT_LINE-1, MAX_EDIT_LINE, MAX_EDIT_LINE+1, 5000 lines; one line of 0, 79, 80, 81, 255, 256, "
                                  "WRAPMARGIN, WRAPMARGIN+1, 4095, 4096, 70000 bytes; stored body / article file of 64 KiB-1, 64 KiB, 64 KiB+1 bytes (thorough: 1 MiB, up to 65537 lines)",
+                                 "every local midnight of the range of times (2001-09 .. 2038-01): types.Time4.Cdatemd asked in one process for the last second of a day and the first of the next, forwards and backwards",
                                  "conditions of the shared memory around a post (second driver, op 3): Shm.BBusyState non-zero before anything was counted / after the board was listed / set and "
                                  "cleared inside a sequence; BusyStateB = now, seconds ago, 1970, 2^31-1; Total 0, behind, ahead of the index; LastPostTime 0, 1970, tomorrow, 2^31-1; all at once"]
     c.cov["distribution"]["posts"] = len(index)
@@ -1174,6 +1175,11 @@ def main():
     c.cov["distribution"]["posts with a cached count out of sync before"] = sum(
         1 for k_ in results if results[k_]["pre"]["boards"][groups[k_[0]][k_[1]]["b"]]["total"] not in (0, len(results[k_]["pre"]["boards"][groups[k_[0]][k_[1]]["b"]]["dir"]) // 128))
     c.cov["distribution"]["scenarios dropped after a hang"] = len(dead)
+    c.cov["distribution"]["posts made under a moved clock"] = sum(1 for g_ in groups for q_ in g_ if q_["kind"].startswith("clock-"))
+    c.cov["distribution"]["posts in flight while the local day changed (clock readings of one post on two local days)"] = sum(
+        1 for k_ in results if (results[k_]["t0"] + 28800) // 86400 != (results[k_]["t1"] + 28800) // 86400)
+    c.cov["distribution"]["posts whose clock readings straddle the second before a local midnight (first stamp old day, second stamp new day possible)"] = sum(
+        1 for k_ in results if results[k_]["t0"] != results[k_]["t1"] and (results[k_]["t1"] + 1 + 28800) % 86400 == 0)
     c.cov["distribution"]["clock straddled a second"] = sum(1 for k_ in results if results[k_]["t0"] != results[k_]["t1"])
     vf.ipc_cleanup()
     c.finish(rule="real posts through bbs.CreateArticle in a scratch BBSHOME; title lengths / tag prefixes / body-size boundaries / conditions of the board cache's shared memory enumerated, "
@@ -1182,6 +1188,10 @@ def main():
              assumptions=["clock readings, math/rand draws and the file modification time are observed inputs of the model (reported by the driver, which seeds math/rand per case)",
                           "Go's fmt / time formatting, os file operations and rename(2) are re-specified in Model/C09.v and exercised by the correspondence, not verified",
                           "the .post log (ptt.PostLog) and the cross-post copies in ALLPOST are outside this property's statement and are not compared",
+                          "the clock of a long-running process: types.NowTS (the only clock the post path reads) is moved by the driver through the verif hook types.VerifSetClockOffset between posts, "
+                          "and types.Time4.Cdatemd is asked for lists of times inside one process — validation on chosen histories (every local midnight of 2001-2038 for the date function; day / month / year "
+                          "boundaries, later days, a clock stepped back and random walks for real posts); that the recorded date depends on the entry's own stamp time only is a theorem about the model "
+                          "(C09_sequence_dates, C09_date_is_local_day), for the Go code it is what these histories test; file modification times still come from the kernel clock; histories are sequential",
                           "shared-memory conditions are set by the driver between requests (Shm.BBusyState, BusyStateB, Total, LastPostTime of the two scenario boards); another process writing the "
                           "board cache while a post is in flight is not exercised; a post that does not return within 20 s is re-run alone with a 120 s deadline before it is reported"])
 
